@@ -173,6 +173,36 @@ pub fn plan_admin(w: &World, _k: &Knobs, actor: &mut Actor, l: &Ledger) -> Vec<(
             };
             push(i, "set_extension_authorities");
         }
+        13 | 14 => {
+            // token badges: attribute and deletion
+            let badges: Vec<(Pubkey, Pubkey)> = l
+                .accts
+                .iter()
+                .filter(|(_, a)| a.owner == ix::wp() && decode::is_kind(&a.data, "TokenBadge") && a.data.len() >= 72)
+                .map(|(k, a)| (*k, Pubkey::new_from_array(a.data[40..72].try_into().unwrap())))
+                .collect();
+            if !badges.is_empty() {
+                let (bk, mint) = badges[rng.idx(badges.len())];
+                let ce = ix::pda_config_extension(&config);
+                if rng.chance(2, 3) {
+                    push(
+                        ix::mk(
+                            wa::SetTokenBadgeAttribute { whirlpools_config: config, whirlpools_config_extension: ce, token_badge_authority: me, token_mint: mint, token_badge: bk },
+                            wi::SetTokenBadgeAttribute { attribute: whirlpool::state::TokenBadgeAttribute::RequireNonTransferablePosition(rng.chance(1, 2)) },
+                        ),
+                        "set_token_badge_attribute",
+                    );
+                } else {
+                    push(
+                        ix::mk(
+                            wa::DeleteTokenBadge { whirlpools_config: config, whirlpools_config_extension: ce, token_badge_authority: me, token_mint: mint, token_badge: bk, receiver: me },
+                            wi::DeleteTokenBadge {},
+                        ),
+                        "delete_token_badge",
+                    );
+                }
+            }
+        }
         _ => {}
     }
     actor.rng = rng.clone();
@@ -309,6 +339,11 @@ pub fn plan_creator(w: &World, _k: &Knobs, actor: &mut Actor, l: &Ledger, now: i
             tx1(ix::mk(wa::SetConfigFeatureFlag { whirlpools_config: config, authority: me }, wi::SetConfigFeatureFlag { feature_flag: whirlpool::state::ConfigFeatureFlag::TokenBadge(rng.chance(9, 10)) })),
             "set_config_feature_flag".into(),
         ));
+    }
+    if rng.chance(1, 12) {
+        // a further config (only admin keys may create one)
+        let cfg2 = new_key(rng);
+        flow.push((tx1(ix::initialize_config(&cfg2, &me, &w.fee_authority, &w.collector, &w.reward_super, *rng.pick(&[0u16, 300, 2500, 2501]))), "initialize_config".into()));
     }
     // a fabricated mint
     let mint = new_key(rng);
